@@ -261,8 +261,30 @@ def nontree_exempt_event(c, e):
                 # not a constant, not a plain id parameter)
                 has_map = not mentions(y, lambda z: z[0] == "call" and z[1].endswith("::kid")) and \
                     mentions(y, lambda z: z[0] in ("call", "elem")) and not _is_constlike(y)
-                if has_kid and has_map:
+                if has_kid and has_map and repair_pairs_are_edges_of_the_mapped_vertex(x, y):
                     return True
+    return False
+
+
+def repair_pairs_are_edges_of_the_mapped_vertex(x, y):
+    """premise of the exemption: the inequality is `kid(LEFT-GRAPH, L, a) != table[to]` for (a, to) an edge of vertex R of the
+    *other* graph, R and L different id parameters of the descent (R is the vertex it has just mapped to L).  Only then does
+    "unequal" need a right vertex with two parents; `kids(g, left)` or `kid(g, ..)` would make the repair fire on trees."""
+    def collect(e, pred, acc):
+        mentions(e, lambda z: acc.append(z) or False if pred(z) else False)
+        return acc
+    kids_calls = collect(x, lambda z: z[0] == "call" and z[1].endswith("::kid") and len(z[2]) >= 3, [])
+    for kc in kids_calls:
+        recv, lv, lab = strip_load(kc[2][0]), strip_load(kc[2][1]), kc[2][2]
+        if lv[0] != "param":
+            continue
+        srcs = collect(lab, lambda z: z[0] == "call" and z[1].split("::")[-1] in ("kids",) and len(z[2]) >= 2, [])
+        for sc in srcs:
+            g, rv = strip_load(sc[2][0]), strip_load(sc[2][1])
+            if rv[0] != "param" or rv == lv or g == recv:
+                continue
+            if mentions(y, lambda z: z == sc):
+                return True
     return False
 
 
